@@ -80,6 +80,37 @@ pub fn one(ctx: &mut Ctx, x: &[u8], shape: &str) {
     }
 }
 
+/// A packet this tree's parser accepts although the reference calls it ill-formed (that disagreement is C02's
+/// finding, and on a tree where C02 holds this function is never reached). The property is quantified over
+/// *accepted* packets, so the clauses that need no decoded message are still judged: decompression terminates
+/// without panic or error, its output is accepted by the same parser, and decompressing again changes nothing.
+pub fn one_unmodelled(ctx: &mut Ctx, x: &[u8], shape: &str) {
+    if !matches!(lib_parse(x), Ok(Ok(_))) {
+        return;
+    }
+    ctx.count("accepted_though_illformed_by_reference");
+    let viol = |ctx: &mut Ctx, cls: &str, detail: String| {
+        ctx.violation("C05", format!("uncompress|unmodelled|{}", cls), format!("{} (accepted by the parser, ill-formed by the reference): {}", shape, detail), x);
+    };
+    let u = match guarded(crate::mon::work_budget(x.len()) * 4, || Compress::uncompress(x).map_err(|e| e.to_string())) {
+        Err(p) => {
+            let kind = if p.is_budget() { "non-termination" } else { "panic" };
+            return viol(ctx, &format!("{}|{}", kind, p.class()), p.msg.clone());
+        }
+        Ok(Err(e)) => return viol(ctx, "error-on-accepted-packet", e),
+        Ok(Ok(u)) => u,
+    };
+    if !matches!(lib_parse(&u), Ok(Ok(_))) {
+        return viol(ctx, "output-rejected-by-parser", short(&u));
+    }
+    match guarded(crate::mon::work_budget(u.len()) * 4, || Compress::uncompress(&u).map_err(|e| e.to_string())) {
+        Ok(Ok(u2)) if u2 == u => {}
+        Ok(Ok(_)) => viol(ctx, "not-idempotent", "second decompression changed the packet".into()),
+        Ok(Err(e)) => viol(ctx, "second-decompression-error", e),
+        Err(p) => viol(ctx, &format!("second-decompression|{}", p.class()), p.msg.clone()),
+    }
+}
+
 pub fn run(ctx: &mut Ctx) {
     let n = ctx.scaled(if ctx.tier == "thorough" { 8_000_000 } else { 240_000 });
     for case in ctx.phase("valid", n) {
@@ -173,6 +204,8 @@ pub fn run(ctx: &mut Ctx) {
         if let Ok(d) = refparse(&inp.bytes, STRICT) {
             ctx.cover(&format!("m|{}|{}", inp.family, super::c03::shape_of(&d, crate::gen::valid::OptPos::None)));
             one(ctx, &inp.bytes, inp.family);
+        } else if inp.bytes.len() >= 12 {
+            one_unmodelled(ctx, &inp.bytes, inp.family);
         }
     }
 }
